@@ -440,6 +440,8 @@ public:
 // ---------------------------------------------------------------- error skeletons
 // Only the *shape* of a message is compared: E "EOF", L<l>:<c> "Line l:c: Expected", X "Expected"
 // without location, N "NOT", { "{ ", | " OR ", } " }", P "Parsing failed: " (the rest is ignored).
+// The character after ", got " is skipped; expected strings come from the grammar, whose generators
+// use only the characters a, b, newline, blank, tab, so they cannot imitate a keyword.
 template <typename Ch>
 bool starts_at(std::basic_string<Ch> const &m, std::size_t const k, char const *const lit)
 {
@@ -494,6 +496,12 @@ std::vector<atom> skeleton(std::basic_string<Ch> const &m)
     {
       k += 9;
       r.push_back({'X', 0, 0});
+      continue;
+    }
+    if (starts_at(m, k, ", got "))
+    {
+      // the offending character is arbitrary text ('}' after a blank would read as " }"): skip it unseen
+      k += 7;
       continue;
     }
     if (starts_at(m, k, "EOF"))
